@@ -12,15 +12,15 @@
    out) and the requested wake-up is not later than that instant; no ServiceResolved after
    ServiceRemoved without new records.
    It is FALSE of the faithful model (C05_removed_on_time_refuted; the simulated daemon agrees).
-   After the repairs of round 2 (SRV expiry reported under every PTR name, host names compared
-   without regard to case) the known findings that stay (known/C05.json) are: PTR variants
-   differing in the cache-flush bit, expiry during the PTR's goodbye second, and - still hash-
-   order dependent - the expiry of the last ADDRESS of an instance under two browsed PTR names
-   (resolve_updated_instances reports it under one of them).  The former witness of the repaired
-   two-names defect is now an example that passes (C05_example_two_names).  Proved here, for all
+   After the repairs of rounds 2 and 3 (SRV expiry and loss of the last address reported under
+   every PTR name, host names compared without regard to case) the known findings that stay
+   (known/C05.json) are: PTR variants differing in the cache-flush bit, and expiry during the
+   PTR's goodbye second.  No hash-order dependent behaviour is left in the histories generated.
+   The former witnesses of the repaired two-names defects are now examples that pass
+   (C05_example_two_names, C05_example_two_names_address).  Proved here, for all
    caches and times: what the evictions do exactly, when an instance is reported and under
    which names, where every ServiceRemoved comes from, the goodbye second, verify (_partial:
-   the history-level statement outside the three classes is checked by the monitor on every
+   the history-level statement outside the two classes is checked by the monitor on every
    generated history:
        forall ifs h wakes, wf_history h = true -> ~ Known_C05 h ->
          chk_C05 ifs h wakes (map obs_of (run_history ifs h)) = true ). *)
@@ -82,6 +82,17 @@ Theorem C05_removed_when_invalid_partial : forall s now updated ch t i,
   is_valid (resolve_from_cache (s_cache s) now t i) = false.
 Proof. exact removed_when_invalid. Qed.
 
+(* ... and under EVERY browsed name: each browsed ty_domain with a PTR (more than one second left)
+   to an updated instance that was reported resolved and cannot be resolved any more gets
+   ServiceRemoved (repair f108398). *)
+Theorem C05_invalid_reported_under_every_name : forall s now updated ty ch ptrs p,
+  In (ty, ptrs) (c_ptr (s_cache s)) -> q_get ty (s_q s) = Some ch ->
+  In p ptrs -> expires_soon p now = false -> mem (alias_of (e_rr p)) updated = true ->
+  is_valid (resolve_from_cache (s_cache s) now ty (alias_of (e_rr p))) = false ->
+  mem (alias_of (e_rr p)) (s_resolved s) = true ->
+  In (OEvt ch (ERemoved ty (alias_of (e_rr p)))) (snd (resolve_updated s now updated)).
+Proof. exact invalid_reported_under_every_name. Qed.
+
 (* goodbye_removed_at_1s: a record delivered with TTL 0 expires exactly 1000 ms after its
    delivery; eviction removes it in the first iteration with now >= that instant. *)
 Theorem C05_goodbye_new : forall r now ifx, r_ttl r = 1 -> e_expires (new_entry r now ifx) = now + 1000.
@@ -140,6 +151,12 @@ Example C05_example_two_names :
   /\ chk_C05 ex_ifs twonames_hist (ex_wakes twonames_hist) (map obs_of (run_history ex_ifs twonames_hist)) = true.
 Proof. exact twonames_facts. Qed.
 
+Example C05_example_two_names_address :
+  map (fun o => length (filter is_removed_evt o)) (run_history ex_ifs twonames_addr_hist) = [0; 0; 2; 0]%nat
+  /\ chk_C05 ex_ifs twonames_addr_hist (ex_wakes twonames_addr_hist)
+             (map obs_of (run_history ex_ifs twonames_addr_hist)) = true.
+Proof. exact twonames_addr_facts. Qed.
+
 Print Assumptions C05_evict_services_exact.
 Print Assumptions C05_evict_addr_exact.
 Print Assumptions C05_live_only_is.
@@ -148,6 +165,8 @@ Print Assumptions C05_expired_ptr_reported.
 Print Assumptions C05_srv_expiry_reported_under_every_name.
 Print Assumptions C05_evict_reports_only_when_true.
 Print Assumptions C05_removed_when_invalid_partial.
+Print Assumptions C05_invalid_reported_under_every_name.
+Print Assumptions C05_example_two_names_address.
 Print Assumptions C05_goodbye_new.
 Print Assumptions C05_goodbye_cached.
 Print Assumptions C05_unexpired_iff.
